@@ -245,6 +245,27 @@ def rename_vars(e, mapping):
     return R().visit(_clone(e))
 
 
+def with_new_helpers(repo, f):
+    """f and the functions of its module that f calls (transitively) and that are NOT functions of the reference tree (helpers
+    somebody extracted which the canonical model could not inline, e.g. a search loop that returns from inside): a rule that asks
+    what f does asks it of these too"""
+    from ..inline import known
+    kn = known()
+    out, todo = [f], [f]
+    while todo:
+        g = todo.pop()
+        for c in ast.walk(g.node):
+            if isinstance(c, ast.Call):
+                nm = c.func.id if isinstance(c.func, ast.Name) else (c.func.attr if isinstance(c.func, ast.Attribute) else None)
+                h = g.module.functions.get(nm) if nm else None
+                if h is None and nm and g.cls is not None:
+                    h = g.cls.methods.get(nm)
+                if h is not None and h not in out and h.qual not in kn:
+                    out.append(h)
+                    todo.append(h)
+    return out
+
+
 def is_none(e):
     return isinstance(e, ast.Constant) and e.value is None
 
